@@ -27,7 +27,7 @@ ASSUMPTIONS = ["Python json / float repr round-trips floats exactly; mesh format
 FLOORS = {'quick': {'json': 300, 'smesh': 60, 'vmesh': 40, 'txt': 150, 'csv': 80, 'file-layout': 200, 'reimport-eval': 1500,
                     'trims': 40, 'container': 40},
           'thorough': {'json': 3000, 'reimport-eval': 15000}}
-MANDATORY_TAGS = ['curve', 'surface', 'volume', 'rational', 'nonrational', 'container', 'container:ten-or-more', 'fmt:txt-volume', 'unnormalized:inside-unit-interval', 'trims', 'fmt:json', 'fmt:smesh', 'fmt:vmesh',
+MANDATORY_TAGS = ['curve', 'surface', 'volume', 'rational', 'nonrational', 'container', 'container:ten-or-more', 'fmt:txt-volume', 'unnormalized:inside-unit-interval', 'unnormalized:some-directions-on-unit-interval', 'trims', 'fmt:json', 'fmt:smesh', 'fmt:vmesh',
                   'fmt:txt1d', 'fmt:txt2d', 'fmt:csv', 'unnormalized']
 TECHNIQUE = ("runtime monitoring: round-trip oracle on every export/import pair (structural equality within printed precision + "
              "exact reference evaluation of the re-imported shape) and an independent harness-side parser of the written files")
@@ -55,6 +55,15 @@ def gen(rng, tier, shard, nshards):
                           normalize=rng.random() < 0.8 and not sub01,
                           **(dict(lohi=rng.choice([(0.25, 0.75), (0.0, 0.5), (0.0, 2.0 ** -20), (0.5, 1.0)])) if sub01 else {}))
         yield {'kind': 'single', 'sd': sd, 'seed': rng.randrange(1 << 30), 'trims': pdim == 2 and rng.random() < 0.5}
+        if i % 5 == 1:
+            # some directions on [0, 1], the others not: nothing may be rescaled on the way through a file
+            pd = rng.choice([2, 2, 3])
+            sdm = G.rand_shape(rng, pd, dim=3, clamped_only=True, maxextra=3, maxdeg=3, normalize=False, lohi=(0.0, 1.0))
+            dirs = rng.sample(range(pd), rng.randint(1, pd - 1))
+            for d_ in dirs:
+                a_, b_ = rng.choice([(0.0, 2.0), (2.0, 5.0), (-3.0, 7.5), (0.0, 0.5)])
+                sdm['kvs'][d_] = [a_ + (b_ - a_) * k for k in sdm['kvs'][d_]]
+            yield {'kind': 'single', 'sd': sdm, 'seed': rng.randrange(1 << 30), 'trims': False, 'mixed': True}
         if i % 4 == 0:
             pd = rng.choice([1, 2, 3])
             yield {'kind': 'container', 'seed': rng.randrange(1 << 30),
@@ -129,6 +138,8 @@ def check(case, ctx):
             'normalized' if sd['normalize_kv'] else 'unnormalized')
     if not sd['normalize_kv'] and all(0.0 <= kv[0] and kv[-1] <= 1.0 for kv in sd['kvs']) and any(kv[0] != 0.0 or kv[-1] != 1.0 for kv in sd['kvs']):
         ctx.tag('unnormalized:inside-unit-interval')
+    if not sd['normalize_kv'] and len(set((kv[0] == 0.0 and kv[-1] == 1.0) for kv in sd['kvs'])) == 2:
+        ctx.tag('unnormalized:some-directions-on-unit-interval')
     # non-default sampling density
     if pdim == 1:
         o.sample_size = rng.randint(3, 30)
